@@ -113,7 +113,8 @@ class DecFileParser:
                 if not filename.is_file():
                     raise FileNotFoundError(f"{str(filename)!r}!")
 
-                with filename.open(encoding="utf_8") as file:
+                # "utf_8_sig" strips the unicode byte order mark, if present
+                with filename.open(encoding="utf_8_sig") as file:
                     for line in file:
                         # We need to strip the unicode byte ordering if present before checking for *
                         beg = line.lstrip("\ufeff").lstrip()
